@@ -14,6 +14,12 @@ def instances(tier, seed):
             progress=("fresh", "running", "running_long", "completed", "scheduled",
                       "other_running"),
             deadlines=("loose", "tight") if th else ("loose",))
+    # a predecessor that no worker can host right now (a running task of another graph
+    # holds one of the two CPUs it needs) offered together with successors that fit
+    for pol in ("ILP", "TSG", "Z3"):
+        yield from EI.gen([pol], tier, seed, shapes=("chain2", "chain3", "fork", "join"),
+                          max_n=3, variants=(7,), clusters=("c2",), progress=("fresh",),
+                          deadlines=("loose",), blocker=True)
     if th:
         for pol in ("ILP", "TSG"):
             yield from EI.gen([pol], tier, seed, shapes=("diamond", "chain4", "fork3"),
